@@ -48,6 +48,7 @@ type msSc struct {
 	Clients     [][]cliOp `json:"clients"`
 	Disconnects [][2]int  `json:"disconnects"`           // (peer, at ms)
 	FailStreams []int     `json:"fail_streams"`          // global indices of NewStream calls that fail
+	DeafStreams []int     `json:"deaf_streams,omitempty"` // global indices of streams whose remote end accepts the stream and then never reads (with SyncWrites: the client's write blocks)
 	DialMs      []int     `json:"dial_ms,omitempty"`     // latency of the i-th NewStream call (cyclic)
 	PickupMs    []int     `json:"pickup_ms,omitempty"`   // how long the remote waits before reading its n-th message on a stream (cyclic over stream*4+n)
 	SyncWrites  bool      `json:"sync_writes,omitempty"` // client writes block until the remote has read them (exhausted send window)
@@ -125,6 +126,10 @@ func runMS(t *testing.T, sc *msSc) (res verifsim.Result) {
 		for _, i := range sc.FailStreams {
 			failStream[i] = true
 		}
+		deafStream := map[int]bool{}
+		for _, i := range sc.DeafStreams {
+			deafStream[i] = true
+		}
 		logEv := func(e srvEvent) { mu.Lock(); e.At = now(); events = append(events, e); mu.Unlock() }
 		h.NewStreamFn = func(ctx context.Context, p peer.ID, pids ...protocol.ID) (network.Stream, error) {
 			mu.Lock()
@@ -169,6 +174,13 @@ func runMS(t *testing.T, sc *msSc) (res verifsim.Result) {
 			srvWG.Add(1)
 			go func() {
 				defer srvWG.Done()
+				if deafStream[idx] {
+					// accepts the stream and never reads from it
+					for !srv.Dead() && !srv.WasReset() {
+						time.Sleep(time.Second)
+					}
+					return
+				}
 				r := msgio.NewVarintReaderSize(srv, network.MessageSizeMax)
 				for nread := 0; ; nread++ {
 					if len(sc.PickupMs) > 0 {
@@ -373,6 +385,9 @@ func runMS(t *testing.T, sc *msSc) (res verifsim.Result) {
 		return
 	}
 	bound := time.Second + time.Duration(2*maxOf(sc.YieldMs)+2*(maxOf(sc.DialMs)+maxOf(sc.PickupMs)+10000))*time.Millisecond
+	if len(sc.DeafStreams) > 0 && sc.SyncWrites {
+		bound += 2 * writeTimeoutBound // a write nobody reads is given up after the sender's write timeout, once per attempt
+	}
 	for _, r := range results {
 		if r.Op.Msg {
 			continue
@@ -584,7 +599,7 @@ func c11MessageSenderCheck() verifsim.Check[msSc] {
 		Property: "C11", Part: "message-sender",
 		Rule: "rapid: 1-6 client goroutines x 1-4 SendRequest/SendMessage calls to 3 peers at drawn virtual instants, optional cancellation instants, OnDisconnect notifications, failing NewStream calls; each peer is an honest " +
 			"scripted responder that echoes the request's unique id after a drawn delay (0-25 s, i.e. also after the 10 s read timeout: a late reply), resets, closes, writes garbage / an oversize length prefix / a partial frame, or stays silent, " +
-			"separately for the first and the retried attempt; optionally slow dials (0-3 s), remotes that pick requests up late with client writes blocking until then (exhausted send window), and drawn virtual pauses at the build-tag yield points " +
+			"separately for the first and the retried attempt; optionally slow dials (0-3 s), remotes that pick requests up late - or never - with client writes blocking until then (exhausted send window), and drawn virtual pauses at the build-tag yield points " +
 			"of the sender bookkeeping (between registering a sender and locking it, before removing a failed one, before a disconnect invalidates), so that the harness owns those interleavings; " +
 			"oracle = every successful request returns the echo of its own id written during the call, failures are bounded, exchanges on one stream never overlap, nothing is written after a reset, " +
 			"a stream is never used again after a failed exchange, and a stream to a peer is only opened once the previous one was reset or closed unless a disconnect was notified between the starts of the two calls; " +
@@ -630,6 +645,9 @@ func c11MessageSenderCheck() verifsim.Check[msSc] {
 			if rapid.Bool().Draw(t, "slowPickup") {
 				sc.SyncWrites = true
 				sc.PickupMs = rapid.SliceOfN(rapid.SampledFrom([]int{0, 0, 0, 1, 400, 1000, 3000}), 1, 8).Draw(t, "pickupMs")
+				if verifsim.Chance(t, "deaf", 20) {
+					sc.DeafStreams = rapid.SliceOfNDistinct(rapid.IntRange(0, 8), 1, 2, func(i int) int { return i }).Draw(t, "deafStreams") // remotes that never read
+				}
 			}
 			return sc
 		},
@@ -640,12 +658,15 @@ func c11MessageSenderCheck() verifsim.Check[msSc] {
 var _ = io.EOF
 var _ = ma.StringCast
 
+// upper bound assumed for how long the sender lets a write block before it gives the stream up
+const writeTimeoutBound = 61 * time.Second
+
 // C10 layer 2: the remote end writes arbitrary byte streams, oversize frames,
 // nothing at all, or closes mid-frame.
 func TestVerif_C10_SenderBytes(t *testing.T) {
 	verifsim.RunCheck(t, verifsim.Check[msSc]{
 		Property: "C10", Part: "sender-bytes",
-		Rule: "rapid: 1-3 clients x 1-3 SendRequest calls against remotes that only misbehave at byte level (garbage, oversize length prefix, partial frame, silence, close, reset; on the first attempt and on the retry), or that stream well-formed messages of other types than the request for over a minute; " +
+		Rule: "rapid: 1-3 clients x 1-3 SendRequest calls against remotes that only misbehave at byte level (garbage, oversize length prefix, partial frame, silence, close, reset; on the first attempt and on the retry), or that stream well-formed messages of other types than the request for over a minute, or that accept a stream and never read from it while the client's writes block until read (calls with and without a cancellation instant); " +
 			"oracle: every call returns an error (never a fabricated reply) within the read timeout per attempt, nothing blocks, plus the C11 stream invariants; non-trivial = both attempts misbehave",
 		Gen: func(t *rapid.T) msSc {
 			var sc msSc
@@ -656,10 +677,18 @@ func TestVerif_C10_SenderBytes(t *testing.T) {
 				sc.Clients = [][]cliOp{{{Peer: 0, StartMs: rapid.IntRange(0, 2000).Draw(t, "otStart"), Attempts: []attempt{{Action: "othertype", DelayMs: d}, {Action: "othertype", DelayMs: d}}}}}
 				return sc
 			}
+			if verifsim.Chance(t, "deaf", 15) {
+				// remotes that accept a stream and never read from it, with writes that block until they are read
+				sc.SyncWrites = true
+				sc.DeafStreams = rapid.SliceOfNDistinct(rapid.IntRange(0, 4), 1, 3, func(i int) int { return i }).Draw(t, "deafStreams")
+			}
 			nc := rapid.IntRange(1, 3).Draw(t, "nClients")
 			for c := 0; c < nc; c++ {
 				sc.Clients = append(sc.Clients, rapid.SliceOfN(rapid.Custom(func(t *rapid.T) cliOp {
 					op := cliOp{Peer: rapid.IntRange(0, 1).Draw(t, "peer"), StartMs: rapid.IntRange(0, 5000).Draw(t, "start")}
+					if len(sc.DeafStreams) > 0 && rapid.Bool().Draw(t, "deafCancel") {
+						op.CancelMs = rapid.SampledFrom([]int{100, 3000, 20000}).Draw(t, "deafCancelMs")
+					}
 					op.Attempts = rapid.SliceOfN(rapid.Custom(func(t *rapid.T) attempt {
 						return attempt{
 							Action:  rapid.SampledFrom([]string{"garbage", "oversize", "partial", "silent", "close", "reset", "echo"}).Draw(t, "action"),
